@@ -189,6 +189,7 @@ func (w *zzC08World) compare() bool {
 			}
 		}
 		// sync state
+		eq(w.mgr.Birthday().Unix() == fresh.Birthday().Unix(), "birthday")
 		rs, fs := w.mgr.SyncedTo(), fresh.SyncedTo()
 		eq(rs.Height == fs.Height && rs.Hash == fs.Hash && rs.Timestamp.Unix() == fs.Timestamp.Unix(), "synced-to")
 		eq(fs.Height == w.height, "synced-to-is-last-committed")
